@@ -130,8 +130,12 @@ func register(r *Rule) {
 }
 
 // runRule executes one rule, converting panics into an undecided obligation (analyzer failure fails the run).
+// curProg is the program of the rule being run (for helpers that have no Ctx at hand).
+var curProg *Prog
+
 func runRule(p *Prog, r *Rule) (obls []Obligation, info map[string]interface{}) {
 	c := &Ctx{P: p, rule: r}
+	curProg = p
 	defer func() {
 		if e := recover(); e != nil {
 			c.undecided("analyzer-panic", "-", fmt.Sprintf("analyzer panic: %v", e))
